@@ -41,7 +41,6 @@ static inline int vp_lapack_ok(rci_t const *P, int length, int dim) {
 #define ENS2_apply_p_left(A, P) VP_IMP(!VP_ROWOK(A, vg_r), VP_G(A) == VP_G0(A))
 
 /* columns: ghost bit (vg_r, vg_w, vg_b) of the block; rows >= start_row of the view: cell j comes from cell vg_src */
-#define VP_GCELL(A, r0) (VP_ROWOK(A, vg_r) && vg_r >= (r0) && vg_w >= 0 && VP_GCOL < (A)->ncols)
 #define REQ_apply_p_right(A, P, r0, SRCF)                                                          \
   (VP_HDR(A) && VP_NONEMPTY(A) && (P)->length >= 0 && (r0) >= 0 && (r0) <= (A)->nrows && vp_lapack_ok((P)->values, VP_PLEN(P, (A)->ncols), (A)->ncols) &&        \
    VP_GHOST_OK(A, vg_r, vg_w) && VP_GBIT_OK && VP_IMP(VP_GCELL(A, r0), vg_src == SRCF((P)->values, VP_PLEN(P, (A)->ncols), VP_GCOL)))
